@@ -649,6 +649,8 @@ uint64_t concretize(const Val& v, const char* what)
     }
 }
 
+// live heap blocks and stack slots with exact bounds (used to bound what a native callee can reach through a pointer argument)
+std::map<uint64_t, uint64_t>* live_blocks = nullptr;
 // freed heap blocks (see the free() intercept)
 std::map<uint64_t, uint64_t>* quarantine       = nullptr;
 uint64_t                      quarantine_bytes = 0;
